@@ -164,6 +164,8 @@ pub enum Ev {
     MktBook { i: usize, t: i64, snapshot: bool },
     MktCandle { i: usize, t: i64 },
     MktLiq { i: usize, t: i64 },
+    /// a market item whose `time_received` is `time_exchange + lat` ns (lat may be negative)
+    Late(Box<Ev>, i64),
 }
 
 /// what the scripted strategy returns if it is asked at this tick
@@ -397,6 +399,7 @@ impl Ev {
             Ev::MktBook { i, t, snapshot } => json!({"k": "mkt_book", "i": i, "t": t, "snapshot": snapshot}),
             Ev::MktCandle { i, t } => json!({"k": "mkt_candle", "i": i, "t": t}),
             Ev::MktLiq { i, t } => json!({"k": "mkt_liq", "i": i, "t": t}),
+            Ev::Late(inner, lat) => json!({"k": "late", "lat": lat, "ev": inner.to_json()}),
         }
     }
     pub fn from_json(v: &Value) -> Ev {
@@ -420,7 +423,7 @@ impl Ev {
                 i: us(&v["i"]) % N_INSTR,
                 side: (us(&v["side"]) % 2) as u8,
                 price: i6(&v["price"]).clamp(1, 1_000_000),
-                qty: i6(&v["qty"]).clamp(1, 1_000_000),
+                qty: i6(&v["qty"]).clamp(0, 1_000_000),
                 fee: i6(&v["fee"]).clamp(0, 1_000_000),
                 t: i6(&v["t"]),
                 n: v["n"].as_u64().unwrap_or(0),
@@ -444,6 +447,7 @@ impl Ev {
             "mkt_book" => Ev::MktBook { i: us(&v["i"]) % N_INSTR, t: i6(&v["t"]), snapshot: v["snapshot"].as_bool().unwrap_or(false) },
             "mkt_candle" => Ev::MktCandle { i: us(&v["i"]) % N_INSTR, t: i6(&v["t"]) },
             "mkt_liq" => Ev::MktLiq { i: us(&v["i"]) % N_INSTR, t: i6(&v["t"]) },
+            "late" => Ev::Late(Box::new(Ev::from_json(&v["ev"])), i6(&v["lat"])),
             _ => Ev::Shutdown,
         }
     }
@@ -471,6 +475,7 @@ impl Ev {
             Ev::MktBook { .. } => "ev_market_book",
             Ev::MktCandle { .. } => "ev_market_candle",
             Ev::MktLiq { .. } => "ev_market_liquidation",
+            Ev::Late(inner, _) => inner.tag(),
         }
     }
 }
@@ -974,6 +979,13 @@ pub fn engine_event(ev: &Ev, l: &Layout) -> EngineEvent<DataKind> {
                 }),
             }))
         }
+        Ev::Late(inner, lat) => {
+            let mut e = engine_event(inner, l);
+            if let EngineEvent::Market(MarketStreamEvent::Item(m)) = &mut e {
+                m.time_received = m.time_exchange + Duration::nanoseconds(*lat);
+            }
+            e
+        }
         Ev::MktCandle { i, t } => EngineEvent::Market(MarketStreamEvent::Item(MarketEvent {
             time_exchange: at(*t),
             time_received: at(*t),
@@ -1038,6 +1050,7 @@ pub fn coq_event(ev: &Ev, l: &Layout) -> String {
         Ev::CancelResp { key, ok, .. } => format!("(EA [OCancelResp ({}) {}])", key.coq(), ok),
         Ev::Snapshot { orders, .. } => format!("(EA {})", list(&orders.iter().map(|(s, st)| snap(s, st)).collect::<Vec<_>>())),
         Ev::MktTrade { .. } | Ev::MktL1 { .. } | Ev::MktBook { .. } | Ev::MktCandle { .. } | Ev::MktLiq { .. } => "EM".into(),
+        Ev::Late(inner, _) => coq_event(inner, l),
     }
 }
 
@@ -1311,13 +1324,22 @@ pub fn run_case(inp: &Input, stream: &'static str) -> Case {
     let inp2 = inp.clone();
     match catch(AssertUnwindSafe(move || run_case_inner(&inp2, stream))) {
         Ok(c) => c,
-        Err(msg) => Case {
-            stream,
-            input: inp.to_json(),
-            coq: "CPanic".into(),
-            nontrivial: false,
-            tags: vec![format!("panic:{}", msg.chars().take(60).collect::<String>())],
-        },
+        Err(msg) => {
+            // a fill of quantity zero is outside the input requirements (position.rs divides by
+            // the fill / position quantity): such a panic is recorded, not judged
+            let zero_fill = inp.pre.iter().chain(inp.feed.iter()).any(|(e, _)| matches!(e, Ev::Trade { qty: 0, .. }));
+            Case {
+                stream,
+                input: inp.to_json(),
+                coq: if zero_fill { "CExcluded".into() } else { "CPanic".into() },
+                nontrivial: false,
+                tags: vec![if zero_fill {
+                    "panic_excluded_zero_quantity_fill".to_string()
+                } else {
+                    format!("panic:{}", msg.chars().take(60).collect::<String>())
+                }],
+            }
+        }
     }
 }
 
@@ -1330,8 +1352,22 @@ fn run_case_inner(inp: &Input, stream: &'static str) -> Case {
     for (e, s) in inp.pre.iter().chain(inp.feed.iter()) {
         tags.push(e.tag().to_string());
         match e {
-            Ev::Order(_, st) => tags.push(st.tag().to_string()),
+            Ev::Order(sp, st) => {
+                tags.push(st.tag().to_string());
+                if sp.qty == 0 {
+                    tags.push("order_zero_quantity".into());
+                }
+                if let OSt::Open(m) = st {
+                    if m.filled > sp.qty {
+                        tags.push("order_overfilled".into());
+                    }
+                }
+            }
             Ev::Snapshot { orders, .. } => orders.iter().for_each(|(_, st)| tags.push(st.tag().to_string())),
+            Ev::Late(_, lat) => tags.push(
+                if *lat < 0 { "market_received_before_exchange" } else if *lat == 0 { "market_latency_zero" } else { "market_latency_positive" }.to_string(),
+            ),
+            Ev::Trade { qty: 0, .. } => tags.push("trade_zero_quantity".into()),
             _ => {}
         }
         if !s.is_empty() {
